@@ -27,6 +27,11 @@ fn create_equalizer(
 
     if let Some(other_hctl_var_name) = other_hctl_var_name {
         // do comparator between the two HCTL variables
+        // this is a pure equality relation used to rename a variable in a set that already lies
+        // inside the unit set; the unit set must not take part in it, because inside the scope of
+        // a domain-restricted quantifier it constrains one of the two variables, and the
+        // constraint would be moved onto the other one by the renaming
+        comparator = graph.symbolic_context().mk_constant(true);
 
         // HCTL variables are named x, xx, xxx, ...
         let other_hctl_var_id = other_hctl_var_name.len() - 1; // len of var codes its index
@@ -48,6 +53,7 @@ fn create_equalizer(
                 .mk_var_by_name(hctl_var2_component_name.as_str());
             comparator = comparator.and(&bdd_hctl_var1_component.iff(&bdd_hctl_var2_component));
         }
+        return GraphColoredVertices::new(comparator, graph.symbolic_context());
     } else {
         // do comparator between network vars and a HCTL variable
 
